@@ -349,6 +349,18 @@ Theorem gen_landweber_is_model :
 Proof. exact gen_lw_run. Qed.
 Print Assumptions gen_landweber_is_model.
 
+(* generated steepest_descent (constant step; the `return` inside the loop): the caller's x
+   and the callback log are those of the model with its "returned" flag *)
+Theorem gen_steepest_descent_is_model :
+  forall (grad proj : list R -> list R) (step tol : R) (junk : string -> list R) (maxiter : nat) (x : list R),
+  let I := mk_I [("step", step); ("tol", tol)] [("f.gradient", grad); ("projection", proj)] [] [] junk in
+  exists s, run_prog I steepest_descent_pre steepest_descent_body maxiter
+              (mk_hst [("x", 0%nat); ("caller.x", 0%nat)] [x] []) = Some s
+    /\ deref s "caller.x" = Some (fst (iter maxiter (sd_step grad proj step tol) (x, false)))
+    /\ h_log s = sd_trace grad proj step tol maxiter (x, false).
+Proof. exact gen_sd_run. Qed.
+Print Assumptions gen_steepest_descent_is_model.
+
 Theorem gen_proximal_gradient_is_model :
   forall (proxf gradg : list R -> list R) (gamma : R) (lam : nat -> R) (junk : string -> list R)
          (niter : nat) (x : list R),
